@@ -105,8 +105,8 @@ Qed.
 Theorem c18_epk : forall a r v, view_spec a r v ->
   match v_epk v with
   | None => is_agreement a = false
-  | Some EpkPreset => is_agreement a = true /\ r_preset_epk r <> None
-  | Some (EpkDrawn d) => is_agreement a = true /\ r_preset_epk r = None
+  | Some EpkPreset => is_agreement a = true /\ caller_preset r <> None
+  | Some (EpkDrawn d) => is_agreement a = true /\ caller_preset r = None
                          /\ Some (d_site d) = curve_site (r_key r)
   end.
 Proof. intros a r v H. exact (proj1 H). Qed.
@@ -259,11 +259,84 @@ Proof. intros A value em. exact (nodup_map_inj value em). Qed.
 (* ---- non-vacuity: concrete runs through the real tables *)
 Definition rc (alg : string) (k : keydesc) : recip :=
   {| r_alg := alg; r_key := k; r_has_p2s := false; r_p2c := None;
-     r_preset_epk := None; r_sender := None |}.
+     r_preset_epk := None; r_epk_generated := false; r_sender := None |}.
 Definition ex_msg : msg :=
   {| m_enc := "A128CBC-HS256";
      m_recips := [rc "ECDH-ES+A128KW" (KEC "P-384"); rc "A256GCMKW" (KOct 256);
                   rc "PBES2-HS256+A128KW" (KOct 80); rc "RSA-OAEP" (KRSA 2048)] |}.
+
+(* ---- reused message objects: what a previous encryption or a decryption left in the
+        object (iv / ciphertext / tag / encrypted key segments, previous token, plaintext)
+        does not influence the draws, the emitted values or the outcome of the next
+        encryption; only [jo_msg] does.  Hence c18_layout / c18_iv / c18_cek / c18_categories
+        hold verbatim for the n-th encryption of a reused object: its IV, CEK and GCM-KW
+        ivs are draws of THAT call.  (The "p2s"/"p2c" members written into a REUSED header
+        object by the previous call are inputs of the next one, see [msg_after]; the ephemeral
+        key generated by the previous call is flagged r_epk_generated and is not: see
+        c18_epk_fresh_on_reuse.  The correspondence run derives [msg] from the object's state
+        before each call.) *)
+Theorem c18_object_state_irrelevant : forall algs encs new_segments (o1 o2 : jobject) w,
+  jo_msg o1 = jo_msg o2 ->
+  let r1 := encrypt_object algs encs new_segments o1 w in
+  let r2 := encrypt_object algs encs new_segments o2 w in
+  o_draws r1 = o_draws r2 /\ o_world r1 = o_world r2 /\
+  match o_res r1, o_res r2 with
+  | Ok (t1, _), Ok (t2, _) => t1 = t2
+  | Err e1, Err e2 => e1 = e2
+  | _, _ => False
+  end.
+Proof. exact encrypt_object_irrelevant. Qed.
+
+Theorem c18_object_encrypt_is_fresh_encrypt : forall algs encs new_segments o w,
+  let r := encrypt_object algs encs new_segments o w in
+  let r0 := encrypt algs encs (jo_msg o) w in
+  o_draws r = o_draws r0 /\ o_world r = o_world r0 /\
+  match o_res r, o_res r0 with
+  | Ok (t, _), Ok t0 => t = t0
+  | Err e, Err e0 => e = e0
+  | _, _ => False
+  end.
+Proof. exact encrypt_object_is_encrypt. Qed.
+
+(* ---- ephemeral keys on reused objects: the message the next encryption of the same object
+        sees ([msg_after]) has the same algorithms, keys and CALLER-preset ephemeral keys; and
+        in that next encryption every agreement recipient without caller preset gets a key
+        generated during THAT call (a draw of the second call, index in [w1, w2)), on the
+        recipient key's curve.  Since the first part re-establishes the hypothesis, the same
+        holds for the n-th encryption. *)
+Theorem c18_epk_fresh_on_reuse : forall algs encs m w t1 ds1 w1 t2 ds2 w2,
+  encrypt algs encs m w = mkout (Ok t1) ds1 w1 ->
+  encrypt algs encs (msg_after m t1) w1 = mkout (Ok t2) ds2 w2 ->
+  exists e, find_enc encs (m_enc m) = Some e /\
+    (8 <= ee_cek_size e ->
+     map caller_preset (m_recips (msg_after m t1)) = map caller_preset (m_recips m) /\
+     map r_alg (m_recips (msg_after m t1)) = map r_alg (m_recips m) /\
+     map r_key (m_recips (msg_after m t1)) = map r_key (m_recips m) /\
+     Forall2 (fun r v => caller_preset r = None ->
+                match v_epk v with
+                | None => forall a, find_alg algs (r_alg r) = Some a -> is_agreement a = false
+                | Some EpkPreset => False
+                | Some (EpkDrawn d) => Some (d_site d) = curve_site (r_key r)
+                                       /\ (In d ds2 /\ w_ctr w1 <= d_idx d < w_ctr w2)
+                end) (m_recips (msg_after m t1)) (t_recips t2)).
+Proof. exact epk_fresh_on_reuse. Qed.
+
+(* re-encrypting the object of c18_ex_multi: a new ephemeral key, CEK, GCM-KW iv and IV are
+   drawn; only the salt written into the (reused) header object by the first call is kept *)
+Example c18_ex_reuse :
+  let o := {| jo_msg := ex_msg; jo_segments := [("iv", [1;2;3])]; jo_plaintext := []; jo_prev := None |} in
+  let r1 := encrypt_object jwe_alg_table jwe_enc_table (fun _ => [("iv", [9;9])]) o {| w_ctr := 0 |} in
+  match o_res r1 with
+  | Ok (t1, o') =>
+      let r2 := encrypt_object jwe_alg_table jwe_enc_table (fun _ => []) o' (o_world r1) in
+      map (fun d => (d_site d, d_idx d)) (o_draws r1) = [(SEC "P-384", 0); (SCek, 1); (SGcmIv, 2); (SP2s, 3); (SIv, 4)] /\
+      map (fun d => (d_site d, d_idx d)) (o_draws r2) = [(SEC "P-384", 5); (SCek, 6); (SGcmIv, 7); (SIv, 8)] /\
+      map caller_preset (m_recips (jo_msg o')) = [None; None; None; None] /\
+      map r_epk_generated (m_recips (jo_msg o')) = [true; false; false; false] /\
+      match o_res r2 with Ok (t2, _) => d_idx (t_iv t2) = 8 | Err _ => False end
+  | Err _ => False
+  end.
+Proof. vm_compute. repeat split; reflexivity. Qed.
 
 Example c18_ex_multi :
   let r := encrypt jwe_alg_table jwe_enc_table ex_msg {| w_ctr := 7 |} in
@@ -286,9 +359,9 @@ Proof. vm_compute. split; reflexivity. Qed.
 (* a pre-set ephemeral key suppresses the generation; a header "p2s" suppresses the salt *)
 Example c18_ex_preset :
   let r1 := {| r_alg := "ECDH-ES+A256KW"; r_key := KEC "P-256"; r_has_p2s := false; r_p2c := None;
-               r_preset_epk := Some (KEC "P-256"); r_sender := None |} in
+               r_preset_epk := Some (KEC "P-256"); r_epk_generated := false; r_sender := None |} in
   let r2 := {| r_alg := "PBES2-HS512+A256KW"; r_key := KOct 64; r_has_p2s := true; r_p2c := Some 5000;
-               r_preset_epk := None; r_sender := None |} in
+               r_preset_epk := None; r_epk_generated := false; r_sender := None |} in
   let r := encrypt jwe_alg_table jwe_enc_table {| m_enc := "A128GCM"; m_recips := [r1; r2] |} {| w_ctr := 3 |} in
   map (fun d => (d_site d, d_size d, d_idx d)) (o_draws r) = [(SCek, 16, 3); (SIv, 12, 4)]
   /\ match o_res r with
@@ -342,3 +415,6 @@ Print Assumptions c18_keygen_okp.
 Print Assumptions c18_history_distinct_gen.
 Print Assumptions c18_history_distinct.
 Print Assumptions c18_values_distinct.
+Print Assumptions c18_object_state_irrelevant.
+Print Assumptions c18_object_encrypt_is_fresh_encrypt.
+Print Assumptions c18_epk_fresh_on_reuse.
